@@ -29,7 +29,7 @@ ASSUMPTIONS = [
     "a foreign entropy source bound at import time (from random import random) is seen through Python's global random state and through the twin runs, not through the call counters",
 ]
 FLOOR = {"points_compared": {"quick": 60000, "thorough": 1500000}, "fresh_process_runs": {"quick": 60, "thorough": 600},
-         "interleaved_schedules": {"quick": 120, "thorough": 2500}, "boxes_compared": {"quick": 150, "thorough": 2000},
+         "interleaved_schedules": {"quick": 120, "thorough": 2500}, "boxes_compared": {"quick": 800, "thorough": 10000},
          "sandwich_runs": {"quick": 100, "thorough": 1500}}
 WALL = {"quick": 1200, "thorough": 4 * 3600}
 
@@ -157,21 +157,34 @@ def run_repro(case, viol, obs):
         V(viol, "C14:foreign_entropy_or_clock_source_used", calls=g.hits[:5], count=len(g.hits))
     if g.state_changed:
         V(viol, "C14:python_global_random_state_advanced")
-    # the user's box
-    want = copy.deepcopy(case["box"])
-    obs["boxes_compared"] += 1
-    if ub is None or [[repr(v) for v in iv] for iv in ub] != [[repr(v) for v in iv] for iv in want] or len(ub) != len(
-            want):
-        V(viol, "C14:user_domain_object_was_modified", before=want, after=ub)
-    elif r1.get("box_ids_before") != r1.get("box_ids_after"):
-        V(viol, "C14:user_domain_object_was_restructured", note="nested list objects replaced")
+    check_box(r1, case, viol, obs)
     return None
+
+
+def check_box(r, case, viol, obs):
+    """the domain object handed to PyXAB (run_points hands over the very object it keeps) is compared with the
+    descriptor's values and its nested list identities with those from before the run"""
+    if r.get("crash") or "user_box" not in r:
+        return
+    ub = r["user_box"]
+    want = copy.deepcopy(case["box"])
+    if case.get("alias_box"):
+        want = [want[0]] * len(want)  # the run was given domain = [first interval] * d
+    obs["boxes_compared"] += 1
+    if ub is None or len(ub) != len(want) or [[repr(v) for v in iv] for iv in ub] != [[repr(v) for v in iv] for iv in
+                                                                                          want]:
+        V(viol, "C14:user_domain_object_was_modified", before=want, after=ub, algo=case.get("algo"),
+          part=case.get("part"))
+    elif r.get("box_ids_before") != r.get("box_ids_after"):
+        V(viol, "C14:user_domain_object_was_restructured", note="nested list objects replaced", algo=case.get("algo"),
+          part=case.get("part"))
 
 
 def run_hashseed(case, viol, obs):
     r1 = TW.run_points(case)
     if r1["crash"]:
         return "crash:" + r1["crash"]
+    check_box(r1, case, viol, obs)
     d0 = TW.digest(r1["points"], r1["last"])
     env = dict(os.environ)
     env["PYTHONPATH"] = C.REPO + os.pathsep + C.VERIF
@@ -198,7 +211,8 @@ def run_sandwich(case, viol, obs):
     r1 = TW.run_points(X)
     if r1["crash"]:
         return "crash:" + r1["crash"]
-    TW.run_points(Y)
+    check_box(r1, X, viol, obs)
+    check_box(TW.run_points(Y), Y, viol, obs)
     r2 = TW.run_points(X)
     obs["sandwich_runs"] += 1
     obs["points_compared"] += len(r1["points"]) + 1
@@ -214,6 +228,8 @@ def run_interleave(case, viol, obs):
     solo = {"A": TW.run_points(dict(A, no_last=True)), "B": TW.run_points(dict(B, no_last=True))}
     if solo["A"]["crash"] or solo["B"]["crash"]:
         return "crash:%s|%s" % (solo["A"]["crash"], solo["B"]["crash"])
+    check_box(solo["A"], dict(A, no_last=True), viol, obs)
+    check_box(solo["B"], dict(B, no_last=True), viol, obs)
     rng = np.random.default_rng([case["sched_seed"], 3])
     cases = {"A": A, "B": B}
     states, algo, pts, pos = {}, {}, {"A": [], "B": []}, {"A": 0, "B": 0}
